@@ -135,7 +135,7 @@ package mvs
 //@ func mvs.transformReqs
 //@   requires root != nil
 //@   modifies heap, smap
-//@   loop 3: step new-names-are-fresh: when true ensures forall k: string :: old(has(newReqs, k)) ==> (has(newReqs, k) && newReqs[k] == old(newReqs[k]))
+//@   loop over newVersions#2: step new-names-are-fresh: when true ensures forall k: string :: old(has(newReqs, k)) ==> (has(newReqs, k) && newReqs[k] == old(newReqs[k]))
 
 // C10: the version order the adapter hands to the library is a total preorder with the root on top
 // (consequence of the postconditions of cmpVersion and the assumed semver axioms).
